@@ -33,10 +33,21 @@ def _rc_entity(elem, id_):
     return cls(rec.reverse_complement(id=True, name=True, description=True)), rec
 
 
+_ALIVE = []
+
+
 def impl_strand(case):
     from harness import implutil
     out = {}
     fwd = implutil.run_assembly({"vector": case["vector"], "modules": case["modules"], "typed": True, "prime": case.get("prime")})
+    # typed objects of the forward plasmids, already queried, stay alive while their reverse complements are
+    # typed and assembled: what a record reports never depends on which other typed objects exist
+    for el in [case["vector"]] + list(case["modules"]):
+        ent = implutil.mk_entity(el, "fw")
+        implutil.typed_info(ent)
+        _ALIVE.append(ent)
+    if len(_ALIVE) > 300:
+        del _ALIVE[:150]
     vector, _ = _rc_entity(case["vector"], "vector")
     modules = [_rc_entity(m, "mod%d" % i)[0] for i, m in enumerate(case["modules"])]
     out["rc_seqs"] = [str(vector.record.seq)] + [str(m.record.seq) for m in modules]
